@@ -92,4 +92,28 @@ MODULES = {
                      ('ploidy', 'Z'), ('is_haploid_x_reference', 'B'), ('scanned', 'Z')],
              ret='Z'),
     ]),
+    # do_call: the DISPATCH between the calling paths, per row -- `if purity and purity < 1.0:` (clonal + clip, log2
+    # rewritten, BAF rescaled when variants are given) / `elif method == "clonal":` (pure) / `if method == "threshold":`
+    # (overrides).  The results of the called functions are opaque typed inputs keyed by their source text (each tied by a
+    # module of its own); `absolutes` is unbound when no path computes it (method "none"): bound to 0 here and never read.
+    # (Proofs/FnCallDispatch.v: C01_source_dispatch -- the choice is Model/Call.v use_purity, then the method)
+    # mutations that break the tie: `purity < 1.0` -> `purity <= 1.0`; `elif method == "clonal"` -> `if ...`;
+    # `if method == "threshold"` -> `elif ...`; `if variants:` (inside the purity branch) dropped
+    'FnCallDispatch': ('cnvlib/call.py', [
+        dict(name='do_call', coq='fn_dispatch',
+             py_params=['cnarr', 'variants', 'method', 'ploidy', 'purity', 'is_haploid_x_reference', 'is_sample_female',
+                        'diploid_parx_genome', 'filters', 'thresholds'],
+             fragment=dict(first='if purity and purity < 1.0', last="if method == 'threshold'"),
+             init=[('absolutes', 'Q', '(inject_Z 0)')],
+             params=[('purity', 'OQ'), ('method', 'S'), ('variants', 'B'),
+                     ("outarr['log2']", 'OQ', 'log2_in'), ("outarr['baf']", 'OQ', 'baf_in'),
+                     ('absolute_clonal(outarr, ploidy, purity, is_haploid_x_reference, diploid_parx_genome, is_sample_female).clip(lower=0)',
+                      'Q', 'clonal_clipped'),
+                     ('log2_ratios(outarr, absolutes, ploidy, is_haploid_x_reference, diploid_parx_genome)', 'OQ', 'log2_rewritten'),
+                     ("rescale_baf(purity, outarr['baf'])", 'OQ', 'baf_rescaled'),
+                     ('absolute_pure(outarr, ploidy, is_haploid_x_reference)', 'Q', 'pure'),
+                     ('absolute_threshold(outarr, ploidy, thresholds, is_haploid_x_reference)', 'Q', 'thresholded'),
+                     ("['%g => %d' % (thr, i) for i, thr in enumerate(thresholds)]", 'LS', 'tokens_')],
+             returns=['absolutes', "outarr['log2']", "outarr['baf']"], ret=['Q', 'OQ', 'OQ']),
+    ]),
 }
